@@ -343,6 +343,46 @@ def _dom_live_key(p):
     return (top, tuple(detached), tuple(afe), form, head)
 
 
+_KEYED_ELSEWHERE = frozenset(["tree", "errors", "phases", "tokenizer", "log", "phase", "strict", "debug", "scripting", "container",
+                              "innerHTMLMode", "innerHTML", "framesetOK", "compatMode", "dropNextNewline", "parser",
+                              "openElements", "activeFormattingElements", "dom", "document", "headPointer", "formPointer",
+                              "defaultNamespace", "characterTokens", "originalPhase"])
+
+
+def _plain_attrs(o, names):
+    """every attribute of a parser / tree builder / phase object that is a plain value (or a phase, or a bound method
+    standing for a mode switch) and is not already part of the key: state that a future version of the code may add is
+    picked up without the harness knowing its name"""
+    out = []
+    for k in sorted(names):
+        if k in _KEYED_ELSEWHERE or "__" in k:
+            continue
+        try:
+            v = getattr(o, k)
+        except AttributeError:
+            continue
+        if isinstance(v, (bool, int, str, type(None))):
+            out.append((k, v))
+        elif type(v).__name__.endswith("Phase"):
+            out.append((k, type(v).__name__))
+        elif callable(v) and hasattr(v, "__name__"):
+            out.append((k, v.__name__))
+    return tuple(out)
+
+
+def _slots(o):
+    names = []
+    for c in type(o).__mro__:
+        names += list(getattr(c, "__slots__", ()))
+    names += list(getattr(o, "__dict__", {}))
+    return names
+
+
+def hidden_state(p):
+    return (_plain_attrs(p, _slots(p)), _plain_attrs(p.tree, _slots(p.tree)),
+            tuple((n, a) for n, a in ((n, _plain_attrs(ph, _slots(ph))) for n, ph in sorted(p.phases.items())) if a))
+
+
 def parser_key(p, snap):
     """canonical state of a suspended parser (dom builder).  ("unavailable", ...) if internals moved."""
     try:
@@ -358,6 +398,7 @@ def parser_key(p, snap):
             p.framesetOK, p.compatMode, bool(p.innerHTML) and p.innerHTML,
             getattr(p.tree, "insertFromTable", None),
             getattr(p, "dropNextNewline", None),
+            hidden_state(p),
         )
         return (misc, _dom_live_key(p), snap)
     except Exception as e:
